@@ -546,7 +546,8 @@ def gen_script(rng, kind):
             behs = []
             for a in range(R):
                 b = gen_beh(rng, T, "mixed")
-                if rng.chance(2, 3):
+                if rng.chance(2, 3) and nstub < 3:   # at most 3 exact ties per script (each is enumerated in both orders)
+                    nstub += 1
                     b = (T, False, b[2], b[3])
                 behs.append(b)
             discard = False
@@ -599,6 +600,9 @@ def run_cases(chk, binary, lines, urg=True, mode="fixed"):
             r.hd_ties, r.other_ties = find_ties(r.tasks, r.obs)
             try:
                 ev = log_to_history(r.tasks, r.obs, r.hd_ties)
+                if sum(e.count("?") for e in ev) > 8:
+                    r.other_ties = r.other_ties + [("too many unresolved ties", [])]
+                    ev = [e.replace("?", "0") for e in ev]
                 r.mline = model_line(mode, urg, r.N, r.tasks, ev)
                 mlines.append(r.mline)
                 midx.append(len(res))
@@ -680,12 +684,31 @@ Print bad.
     return len(items)
 
 
-def realtime_stress(chk, prop_id):
-    """thorough tier extra: real-time run of the package's own stable tests under the race detector
-    (faketime and -race cannot be combined). A DATA RACE report in ants/ is a failing input."""
-    rc, out = common.sh(["go", "test", "-race", "-count=1", "-run", "TestPool_Send|TestPool_GetMultiTimes|TestPool_HandleTooLongTime", "./ants"],
-                        cwd=common.REPO, env=common.GOENV, timeout=900)
-    chk.cov["race_stress"] = "go test -race ./ants (3 stable tests): rc=%d" % rc
-    if "DATA RACE" in out:
-        chk.monitor_fail("data-race", "go test -race -run 'TestPool_Send|TestPool_GetMultiTimes|TestPool_HandleTooLongTime' ./ants", out[-1500:],
-                         "race detector reports a data race in the ants package")
+def realtime_stress(chk, prop_id, n=120):
+    """thorough tier extra: the same harness built WITHOUT faketime and WITH the race detector runs scripts
+    in real time (faketime and -race cannot be combined). Only the race detector's verdict is used (real-time
+    stamps are not compared with anything, so this cannot flake on timing)."""
+    try:
+        binary = common.build_go("./cmd/ftants", tags="verif", race=True, out_name="rtants")
+    except common.BuildError as e:
+        chk.infra_errors.append("race build of the ants harness failed: " + str(e)[-800:])
+        return
+    rng = chk.rng.fork()
+    lines = []
+    for i in range(n):
+        N, tasks = gen_script(rng, rng.choice(["retry", "ties", "ties", "burst"]))
+        tasks = tasks[:5]
+        for t in tasks:   # keep one scenario in the tens of milliseconds
+            t.send = min(t.send, 3 * MS)
+        tasks.sort(key=lambda t: t.send)
+        lines.append(script_line(N, tasks))
+    try:
+        common.run_impl(binary, lines, env=dict(os.environ, GORACE="halt_on_error=0"), timeout=900)
+        chk.cov["race_stress"] = "%d real-time scripts under -race: no report" % n
+    except common.ImplCrash as e:
+        out = str(e)
+        if "DATA RACE" in out:
+            chk.monitor_fail("data-race", "%d real-time scripts (first: %s)" % (n, lines[0][:200]), out[-1800:],
+                             "race detector reports a data race while the pool runs the scripts in real time")
+        else:
+            chk.infra_errors.append("real-time race run crashed: " + out[-800:])
